@@ -91,7 +91,9 @@ Inductive gev :=
 | GSl (a : string) (x : Z)       (* removed by slashing (pool or pending record) *)
 | GLost (a : string) (x : Z)     (* owed amount of a record that was overwritten by another record with the same key *)
 | GNstP (a : string) (x : Z)     (* positive native-restaking balance adjustment (virtual deposit) *)
-| GNstM (a : string) (x : Z).    (* amount removed by a negative native-restaking balance adjustment *)
+| GNstM (a : string) (x : Z)     (* amount removed by a negative native-restaking balance adjustment *)
+| GEscIn (a : string) (x : Z)    (* native token moved from a staker's bank account into the delegation escrow (delegation) *)
+| GEscOut (a : string) (x : Z).  (* native token paid out of the escrow to the staker (completed undelegation) *)
 
 Record st := mkSt {
   height : Z;
@@ -106,20 +108,22 @@ Record st := mkSt {
   sidx : store string;              (* staker/asset/hex(nonce) -> record key *)
   pidx : store string;              (* hex(completeHeight)/hex(nonce) -> record key *)
   hold : store Z;                   (* record key -> hold count (uint64) *)
-  glog : list gev
+  glog : list gev;
+  bank : store Z                    (* x/bank balances of the base denom: native stakers (keyed by staker id) and the delegated_tokens_pool module account *)
 }.
 
-Definition w_height h s := mkSt h (operators s) (validators s) (sa s) (oa s) (tot s) (dg s) (sl s) (ur s) (sidx s) (pidx s) (hold s) (glog s).
-Definition w_sa x s := mkSt (height s) (operators s) (validators s) x (oa s) (tot s) (dg s) (sl s) (ur s) (sidx s) (pidx s) (hold s) (glog s).
-Definition w_oa x s := mkSt (height s) (operators s) (validators s) (sa s) x (tot s) (dg s) (sl s) (ur s) (sidx s) (pidx s) (hold s) (glog s).
-Definition w_tot x s := mkSt (height s) (operators s) (validators s) (sa s) (oa s) x (dg s) (sl s) (ur s) (sidx s) (pidx s) (hold s) (glog s).
-Definition w_dg x s := mkSt (height s) (operators s) (validators s) (sa s) (oa s) (tot s) x (sl s) (ur s) (sidx s) (pidx s) (hold s) (glog s).
-Definition w_sl x s := mkSt (height s) (operators s) (validators s) (sa s) (oa s) (tot s) (dg s) x (ur s) (sidx s) (pidx s) (hold s) (glog s).
-Definition w_ur x s := mkSt (height s) (operators s) (validators s) (sa s) (oa s) (tot s) (dg s) (sl s) x (sidx s) (pidx s) (hold s) (glog s).
-Definition w_sidx x s := mkSt (height s) (operators s) (validators s) (sa s) (oa s) (tot s) (dg s) (sl s) (ur s) x (pidx s) (hold s) (glog s).
-Definition w_pidx x s := mkSt (height s) (operators s) (validators s) (sa s) (oa s) (tot s) (dg s) (sl s) (ur s) (sidx s) x (hold s) (glog s).
-Definition w_hold x s := mkSt (height s) (operators s) (validators s) (sa s) (oa s) (tot s) (dg s) (sl s) (ur s) (sidx s) (pidx s) x (glog s).
-Definition w_glog x s := mkSt (height s) (operators s) (validators s) (sa s) (oa s) (tot s) (dg s) (sl s) (ur s) (sidx s) (pidx s) (hold s) x.
+Definition w_height h s := mkSt h (operators s) (validators s) (sa s) (oa s) (tot s) (dg s) (sl s) (ur s) (sidx s) (pidx s) (hold s) (glog s) (bank s).
+Definition w_sa x s := mkSt (height s) (operators s) (validators s) x (oa s) (tot s) (dg s) (sl s) (ur s) (sidx s) (pidx s) (hold s) (glog s) (bank s).
+Definition w_oa x s := mkSt (height s) (operators s) (validators s) (sa s) x (tot s) (dg s) (sl s) (ur s) (sidx s) (pidx s) (hold s) (glog s) (bank s).
+Definition w_tot x s := mkSt (height s) (operators s) (validators s) (sa s) (oa s) x (dg s) (sl s) (ur s) (sidx s) (pidx s) (hold s) (glog s) (bank s).
+Definition w_dg x s := mkSt (height s) (operators s) (validators s) (sa s) (oa s) (tot s) x (sl s) (ur s) (sidx s) (pidx s) (hold s) (glog s) (bank s).
+Definition w_sl x s := mkSt (height s) (operators s) (validators s) (sa s) (oa s) (tot s) (dg s) x (ur s) (sidx s) (pidx s) (hold s) (glog s) (bank s).
+Definition w_ur x s := mkSt (height s) (operators s) (validators s) (sa s) (oa s) (tot s) (dg s) (sl s) x (sidx s) (pidx s) (hold s) (glog s) (bank s).
+Definition w_sidx x s := mkSt (height s) (operators s) (validators s) (sa s) (oa s) (tot s) (dg s) (sl s) (ur s) x (pidx s) (hold s) (glog s) (bank s).
+Definition w_pidx x s := mkSt (height s) (operators s) (validators s) (sa s) (oa s) (tot s) (dg s) (sl s) (ur s) (sidx s) x (hold s) (glog s) (bank s).
+Definition w_hold x s := mkSt (height s) (operators s) (validators s) (sa s) (oa s) (tot s) (dg s) (sl s) (ur s) (sidx s) (pidx s) x (glog s) (bank s).
+Definition w_glog x s := mkSt (height s) (operators s) (validators s) (sa s) (oa s) (tot s) (dg s) (sl s) (ur s) (sidx s) (pidx s) (hold s) x (bank s).
+Definition w_bank x s := mkSt (height s) (operators s) (validators s) (sa s) (oa s) (tot s) (dg s) (sl s) (ur s) (sidx s) (pidx s) (hold s) (glog s) x.
 Definition log_ev (e : gev) (s : st) : st := w_glog (e :: glog s) s.
 
 Definition mem (x : string) (l : list string) : bool := existsb (String.eqb x) l.
@@ -209,20 +213,65 @@ Definition hold_dec (s : st) (rk : string) : st * res :=
   let prev := hold_count s rk in
   if prev =? 0 then (s, RErr) else (w_hold (sset (hold s) rk (prev - 1)) s, ROk).
 
+(* ---------- the native token (x/assets ExocoreAssetID) and the bank ---------- *)
+Definition native_id : string := "0x0000000000000000000000000000000000000000_0x0".
+Definition pool_key : string := "delegated_tokens_pool".     (* delegationtypes.DelegatedPoolName, the escrow module account *)
+Definition is_native (a : string) : bool := String.eqb a native_id.
+Definition bank_bal (s : st) (k : string) : Z := match sget (bank s) k with Some b => b | None => 0 end.
+
+(* bank (Un)DelegateCoinsFromAccountToModule / FromModuleToAccount for one coin of the base denom: fails when the
+   sender's balance is insufficient *)
+Definition bank_send (s : st) (from to : string) (x : Z) : option st :=
+  match sget (bank s) from with
+  | None => None
+  | Some b =>
+      if b <? x then None
+      else let b1 := sset (bank s) from (b - x) in
+           let t := match sget b1 to with Some y => y | None => 0 end in
+           Some (w_bank (sset b1 to (t + x)) s)
+  end.
+
+(* the three places where the native token and the other assets differ *)
+(* delegateTo: take x from the staker - withdrawable balance of the staker row, or bank account -> escrow *)
+Definition take_from_staker (s : st) (staker asset : string) (x : Z) : option st :=
+  if is_native asset
+  then option_map (log_ev (GEscIn asset x)) (bank_send s staker pool_key x)
+  else match sget (sa s) (sa_key staker asset) with
+       | None => None
+       | Some info => if sa_wd info <? x then None else upd_sa s (sa_key staker asset) 0 (- x) 0
+       end.
+(* RemoveShare(isUndelegation): the staker row's pending figure (no row for the native token) *)
+Definition book_pending (s : st) (staker asset : string) (tok : Z) : option st :=
+  if is_native asset then Some s else upd_sa s (sa_key staker asset) 0 0 tok.
+(* EndBlock: pay a completed undelegation - credit the staker row, or escrow -> bank account *)
+Definition pay_staker (s : st) (r : urec) : option st :=
+  if is_native (ur_asset r)
+  then option_map (log_ev (GEscOut (ur_asset r) (ur_act r))) (bank_send s pool_key (ur_staker r) (ur_act r))
+  else upd_sa s (sa_key (ur_staker r) (ur_asset r)) 0 (ur_act r) (- ur_amt r).
+
 (* ---------- operations ---------- *)
 
 (* PerformDepositOrWithdraw, LST deposit *)
-Definition deposit (s : st) (staker asset : string) (x : Z) : option st :=
+Definition deposit_lst (s : st) (staker asset : string) (x : Z) : option st :=
   if x <? 0 then None
   else match sget (tot s) asset with None => None | Some _ =>
   match upd_sa s (sa_key staker asset) x x 0 with None => None | Some s1 =>
   match upd_tot s1 asset x with None => None | Some s2 => Some (log_ev (GDep asset x) s2) end end end.
 
-Definition withdraw (s : st) (staker asset : string) (x : Z) : option st :=
+Definition withdraw_lst (s : st) (staker asset : string) (x : Z) : option st :=
   if x <? 0 then None
   else match sget (tot s) asset with None => None | Some _ =>
   match upd_sa s (sa_key staker asset) (- x) (- x) 0 with None => None | Some s1 =>
   match upd_tot s1 asset (- x) with None => None | Some s2 => Some (log_ev (GWdr asset x) s2) end end end.
+
+(* for the native token PerformDepositOrWithdraw checks the amount and the registration and then changes nothing
+   ("don't update staker info for exo-native-token") *)
+Definition deposit_native (s : st) (asset : string) (x : Z) : option st :=
+  if x <? 0 then None else match sget (tot s) asset with None => None | Some _ => Some s end.
+Definition deposit (s : st) (staker asset : string) (x : Z) : option st :=
+  if is_native asset then deposit_native s asset x else deposit_lst s staker asset x.
+Definition withdraw (s : st) (staker asset : string) (x : Z) : option st :=
+  if is_native asset then deposit_native s asset x else withdraw_lst s staker asset x.
 
 (* AppendStakerForOperator *)
 Definition append_staker (s : st) (k staker : string) : st :=
@@ -246,9 +295,8 @@ Definition delete_staker (s : st) (k staker : string) : option st :=
 Definition delegate (s : st) (staker asset op : string) (x : Z) : option st :=
   if x <=? 0 then None
   else if negb (mem op (operators s)) then None
-  else match sget (sa s) (sa_key staker asset) with None => None | Some info =>
-  if sa_wd info <? x then None else
-  match upd_sa s (sa_key staker asset) 0 (- x) 0 with None => None | Some s1 =>
+  else
+  match take_from_staker s staker asset x with None => None | Some s1 =>
   let share :=
     match sget (oa s1) (oa_key op asset) with
     | None => Some (dec_of_int x)
@@ -257,7 +305,7 @@ Definition delegate (s : st) (staker asset op : string) (x : Z) : option st :=
   match share with None => None | Some sh =>
   match upd_oa s1 (oa_key op asset) x 0 sh 0 with None => None | Some s2 =>
   match upd_dg s2 (dg_key staker asset op) sh 0 with None => None | Some (s3, _) =>
-  Some (append_staker s3 (oa_key op asset) staker) end end end end end.
+  Some (append_staker s3 (oa_key op asset) staker) end end end end.
 
 Definition unbonding : Z := 10.   (* operatortypes.UnbondingExpiration *)
 
@@ -270,9 +318,13 @@ Definition undelegate (s : st) (staker asset op : string) (x nonce : Z) (tx : st
   match sget (dg s) (dg_key staker asset op) with None => None | Some d =>
   match sget (oa s) (oa_key op asset) with None => None | Some o =>
   match shares_from_tokens (oa_tsh o) x (oa_amt o) with None => None | Some sh0 =>
-  if sh0 >? dg_sh d then None else
+  (* the share check (fix 56b99a6): a request whose converted share exceeds the staker's share by rounding dust but
+     whose amount is within the reported position is an undelegation of the whole position; above the position: rejected *)
+  let over := sh0 >? dg_sh d in
+  let within := match tokens_from_shares (dg_sh d) (oa_tsh o) (oa_amt o) with Some pos => x <=? pos | None => false end in
+  if over && negb within then None else
   match shares_from_tokens (oa_tsh o) 1 (oa_amt o) with None => None | Some tol =>
-  let sh := if dg_sh d - sh0 <? tol then dg_sh d else sh0 in
+  let sh := if over then dg_sh d else if dg_sh d - sh0 <? tol then dg_sh d else sh0 in
   (* RemoveShare / RemoveShareFromOperator *)
   if sh <=? 0 then None
   else if sh >? oa_tsh o then None
@@ -280,7 +332,7 @@ Definition undelegate (s : st) (staker asset op : string) (x nonce : Z) (tx : st
   match (if oa_tsh o =? sh then Some (oa_amt o) else tokens_from_shares sh (oa_tsh o) (oa_amt o)) with
   | None => None | Some tok =>
   match upd_oa s (oa_key op asset) (- tok) tok (- sh) 0 with None => None | Some s1 =>
-  match upd_sa s1 (sa_key staker asset) 0 0 tok with None => None | Some s2 =>
+  match book_pending s1 staker asset tok with None => None | Some s2 =>
   match upd_dg s2 (dg_key staker asset op) (- sh) tok with None => None | Some (s3, isz) =>
   match (if isz then delete_staker s3 (oa_key op asset) staker else Some s3) with None => None | Some s4 =>
   let r := mkUR staker asset op tx (height s) (height s + unbonding) nonce tok tok in
@@ -394,7 +446,7 @@ Definition process (s : st) (r : urec) : st :=
     match set_record s1 r' with None => s | Some s2 => s2 end
   else
     match upd_dg s (dg_key (ur_staker r) (ur_asset r) (ur_op r)) 0 (- ur_amt r) with None => s | Some (s1, _) =>
-    match upd_sa s1 (sa_key (ur_staker r) (ur_asset r)) 0 (ur_act r) (- ur_amt r) with None => s | Some s2 =>
+    match pay_staker s1 r with None => s | Some s2 =>
     match upd_oa s2 (oa_key (ur_op r) (ur_asset r)) 0 (- ur_amt r) 0 0 with None => s | Some s3 =>
     del_record s3 r end end end.
 
@@ -527,7 +579,7 @@ Definition step (s : st) (o : op) : st * res :=
 Definition run (ops : list op) (s : st) : st := fold_left (fun s o => fst (step s o)) ops s.
 
 Definition empty_st (h : Z) (ops vals assets : list string) : st :=
-  mkSt h ops vals [] [] (of_list (map (fun a => (a, 0)) assets)) [] [] [] [] [] [] [].
+  mkSt h ops vals [] [] (of_list (map (fun a => (a, 0)) assets)) [] [] [] [] [] [] [] [].
 
 (* ---------- observation: what the harness dumps ---------- *)
 Definition sa_eqb (a b : sa_row) := (sa_total a =? sa_total b) && (sa_wd a =? sa_wd b) && (sa_pend a =? sa_pend b).
@@ -543,38 +595,41 @@ Definition store_eqb {V} (f : V -> V -> bool) (a b : store V) := list_eqb (kv_eq
 (* raw stores of the implementation (iteration order = key order) *)
 Record dump := mkDump {
   d_sa : store sa_row; d_oa : store oa_row; d_tot : store Z; d_dg : store dg_row; d_sl : store (list string);
-  d_ur : store urec; d_sidx : store string; d_pidx : store string; d_hold : store Z }.
+  d_ur : store urec; d_sidx : store string; d_pidx : store string; d_hold : store Z;
+  d_bank : store Z }.
 
-Definition dump_of (s : st) : dump := mkDump (sa s) (oa s) (tot s) (dg s) (sl s) (ur s) (sidx s) (pidx s) (hold s).
+Definition dump_of (s : st) : dump := mkDump (sa s) (oa s) (tot s) (dg s) (sl s) (ur s) (sidx s) (pidx s) (hold s) (bank s).
 Definition st_of (h : Z) (ops vals : list string) (d : dump) (g : list gev) : st :=
-  mkSt h ops vals (d_sa d) (d_oa d) (d_tot d) (d_dg d) (d_sl d) (d_ur d) (d_sidx d) (d_pidx d) (d_hold d) g.
+  mkSt h ops vals (d_sa d) (d_oa d) (d_tot d) (d_dg d) (d_sl d) (d_ur d) (d_sidx d) (d_pidx d) (d_hold d) g (d_bank d).
 
 Definition dump_eqb (a b : dump) : bool :=
   store_eqb sa_eqb (d_sa a) (d_sa b) && store_eqb oa_eqb (d_oa a) (d_oa b) && store_eqb Z.eqb (d_tot a) (d_tot b) &&
   store_eqb dg_eqb (d_dg a) (d_dg b) && store_eqb (list_eqb String.eqb) (d_sl a) (d_sl b) &&
   store_eqb ur_eqb (d_ur a) (d_ur b) && store_eqb String.eqb (d_sidx a) (d_sidx b) &&
-  store_eqb String.eqb (d_pidx a) (d_pidx b) && store_eqb Z.eqb (d_hold a) (d_hold b).
+  store_eqb String.eqb (d_pidx a) (d_pidx b) && store_eqb Z.eqb (d_hold a) (d_hold b) && store_eqb Z.eqb (d_bank a) (d_bank b).
 
 (* one change of one raw store entry, as observed by the harness between two dumps *)
 Inductive chg :=
 | CSa (k : string) (v : option sa_row) | COa (k : string) (v : option oa_row) | CTot (k : string) (v : option Z)
 | CDg (k : string) (v : option dg_row) | CSl (k : string) (v : option (list string)) | CUr (k : string) (v : option urec)
-| CSidx (k : string) (v : option string) | CPidx (k : string) (v : option string) | CHold (k : string) (v : option Z).
+| CSidx (k : string) (v : option string) | CPidx (k : string) (v : option string) | CHold (k : string) (v : option Z)
+| CBank (k : string) (v : option Z).
 
 Definition app1 {V} (s : store V) (k : string) (v : option V) : store V :=
   match v with Some x => sset s k x | None => sdel s k end.
 
 Definition apply_chg (d : dump) (c : chg) : dump :=
   match c with
-  | CSa k v => mkDump (app1 (d_sa d) k v) (d_oa d) (d_tot d) (d_dg d) (d_sl d) (d_ur d) (d_sidx d) (d_pidx d) (d_hold d)
-  | COa k v => mkDump (d_sa d) (app1 (d_oa d) k v) (d_tot d) (d_dg d) (d_sl d) (d_ur d) (d_sidx d) (d_pidx d) (d_hold d)
-  | CTot k v => mkDump (d_sa d) (d_oa d) (app1 (d_tot d) k v) (d_dg d) (d_sl d) (d_ur d) (d_sidx d) (d_pidx d) (d_hold d)
-  | CDg k v => mkDump (d_sa d) (d_oa d) (d_tot d) (app1 (d_dg d) k v) (d_sl d) (d_ur d) (d_sidx d) (d_pidx d) (d_hold d)
-  | CSl k v => mkDump (d_sa d) (d_oa d) (d_tot d) (d_dg d) (app1 (d_sl d) k v) (d_ur d) (d_sidx d) (d_pidx d) (d_hold d)
-  | CUr k v => mkDump (d_sa d) (d_oa d) (d_tot d) (d_dg d) (d_sl d) (app1 (d_ur d) k v) (d_sidx d) (d_pidx d) (d_hold d)
-  | CSidx k v => mkDump (d_sa d) (d_oa d) (d_tot d) (d_dg d) (d_sl d) (d_ur d) (app1 (d_sidx d) k v) (d_pidx d) (d_hold d)
-  | CPidx k v => mkDump (d_sa d) (d_oa d) (d_tot d) (d_dg d) (d_sl d) (d_ur d) (d_sidx d) (app1 (d_pidx d) k v) (d_hold d)
-  | CHold k v => mkDump (d_sa d) (d_oa d) (d_tot d) (d_dg d) (d_sl d) (d_ur d) (d_sidx d) (d_pidx d) (app1 (d_hold d) k v)
+  | CSa k v => mkDump (app1 (d_sa d) k v) (d_oa d) (d_tot d) (d_dg d) (d_sl d) (d_ur d) (d_sidx d) (d_pidx d) (d_hold d) (d_bank d)
+  | COa k v => mkDump (d_sa d) (app1 (d_oa d) k v) (d_tot d) (d_dg d) (d_sl d) (d_ur d) (d_sidx d) (d_pidx d) (d_hold d) (d_bank d)
+  | CTot k v => mkDump (d_sa d) (d_oa d) (app1 (d_tot d) k v) (d_dg d) (d_sl d) (d_ur d) (d_sidx d) (d_pidx d) (d_hold d) (d_bank d)
+  | CDg k v => mkDump (d_sa d) (d_oa d) (d_tot d) (app1 (d_dg d) k v) (d_sl d) (d_ur d) (d_sidx d) (d_pidx d) (d_hold d) (d_bank d)
+  | CSl k v => mkDump (d_sa d) (d_oa d) (d_tot d) (d_dg d) (app1 (d_sl d) k v) (d_ur d) (d_sidx d) (d_pidx d) (d_hold d) (d_bank d)
+  | CUr k v => mkDump (d_sa d) (d_oa d) (d_tot d) (d_dg d) (d_sl d) (app1 (d_ur d) k v) (d_sidx d) (d_pidx d) (d_hold d) (d_bank d)
+  | CSidx k v => mkDump (d_sa d) (d_oa d) (d_tot d) (d_dg d) (d_sl d) (d_ur d) (app1 (d_sidx d) k v) (d_pidx d) (d_hold d) (d_bank d)
+  | CPidx k v => mkDump (d_sa d) (d_oa d) (d_tot d) (d_dg d) (d_sl d) (d_ur d) (d_sidx d) (app1 (d_pidx d) k v) (d_hold d) (d_bank d)
+  | CHold k v => mkDump (d_sa d) (d_oa d) (d_tot d) (d_dg d) (d_sl d) (d_ur d) (d_sidx d) (d_pidx d) (app1 (d_hold d) k v) (d_bank d)
+  | CBank k v => mkDump (d_sa d) (d_oa d) (d_tot d) (d_dg d) (d_sl d) (d_ur d) (d_sidx d) (d_pidx d) (d_hold d) (app1 (d_bank d) k v)
   end.
 
 (* one observed step: the op, the implementation's result class, the changes of the raw stores, and the
@@ -633,6 +688,8 @@ Definition gev_net (a : string) (e : gev) : Z :=
   | GLost b x => - if_eq b a x
   | GNstP b x => if_eq b a x
   | GNstM b x => - if_eq b a x
+  | GEscIn b x => if_eq b a x
+  | GEscOut b x => - if_eq b a x
   end.
 Definition gev_stake (a : string) (e : gev) : Z :=     (* deposits minus withdrawals only *)
   match e with
@@ -665,8 +722,10 @@ Definition index_ok_d (d : dump) : bool :=
              match sget (d_ur d) rk with Some r => String.eqb (pkey r) k | None => false end) (d_pidx d).
 
 (* C03: aggregates = sums over the live records *)
+(* the native token has no staker rows (the balance lives in x/bank): its records do not count towards a row *)
+Definition amt_sa (r : urec) : Z := if is_native (ur_asset r) then 0 else ur_amt r.
 Definition pend_sa (k : string) (u : store urec) : Z :=
-  ssumk (fun _ r => if_eq (sa_key (ur_staker r) (ur_asset r)) k (ur_amt r)) u.
+  ssumk (fun _ r => if_eq (sa_key (ur_staker r) (ur_asset r)) k (amt_sa r)) u.
 Definition pend_oa (k : string) (u : store urec) : Z :=
   ssumk (fun _ r => if_eq (oa_key (ur_op r) (ur_asset r)) k (ur_amt r)) u.
 Definition pend_dg (k : string) (u : store urec) : Z :=
@@ -679,7 +738,12 @@ Definition aggregates_rows_d (d : dump) : bool :=
 Definition aggregates_ok_d (d : dump) : bool :=
   aggregates_rows_d d &&
   forallb (fun kv => let r := snd kv in
-             has_key (d_sa d) (sa_key (ur_staker r) (ur_asset r)) && has_key (d_oa d) (oa_key (ur_op r) (ur_asset r)) &&
+             (is_native (ur_asset r) || has_key (d_sa d) (sa_key (ur_staker r) (ur_asset r))) && has_key (d_oa d) (oa_key (ur_op r) (ur_asset r)) &&
              has_key (d_dg d) (dg_key (ur_staker r) (ur_asset r) (ur_op r))) (d_ur d).
+
+(* C01 T.4: the escrow account holds at least the native pools plus the amounts owed by native pending undelegations *)
+Definition esc_of (B : store Z) : Z := ssumk (fun k v => if_eq k pool_key v) B.   (* balance of the escrow account *)
+Definition escrow_d (d : dump) : Z := esc_of (d_bank d).
+Definition escrow_ok_d (d : dump) : bool := value_d native_id d <=? escrow_d d.
 
 Definition holdc (d : dump) (rk : string) : Z := match sget (d_hold d) rk with Some n => n | None => 0 end.
